@@ -209,45 +209,85 @@ FREE_CBS = ('S', 'COMMENT', 'unknownrule')
 
 
 def r09c(chk, rid='R09.c'):
-    chk.rule(rid, 'parse-time ordering levels of CSSStyleSheet._setCssText: each statement callback tests `expected > own rank` (charset 0, import 1, namespace/variables 2, body kinds none), returns its own rank on success and the unchanged level on rejection; S/COMMENT/unknown return max(1, expected)')
+    chk.rule(rid, 'parse-time ordering levels, decided by evaluation: CSSStyleSheet._setCssText is evaluated on its syntax tree up to its call of _parse (rule classes, tokenizer and insertRule are model stubs); there every production callback of the dispatch table - resolved from the source, whatever it is called - is run for each level 0..3 and each kind of statement token: @charset is accepted at level 0 only, @import up to 1, @namespace and @variables up to 2, body rules always; an accepted rule sets the level to its rank, a rejected one and every comment, white space, unknown or misplaced margin at-rule leaves it where it is (at least 1); parsing starts at level 0')
+    from sa.absint import Evaluator, Obj, Raised, Record
+
     m = chk.repo.mod(SHEET)
-    for name, (thr, rets) in LEVELS.items():
-        f = m.get(f'CSSStyleSheet._setCssText.{name}')
-        tests = [x.test for x in ast.walk(f) if isinstance(x, ast.If) and isinstance(x.test, ast.Compare) and text(x.test.left) == 'expected']
-        if thr is None:
-            chk.ob(rid, SHEET, f'CSSStyleSheet._setCssText.{name}', 'no level test (allowed at every level)', not tests, f'tests {[text(t) for t in tests]}')
-        else:
-            ok = len(tests) == 1 and isinstance(tests[0].ops[0], ast.Gt) and const(tests[0].comparators[0]) == thr
-            chk.ob(rid, SHEET, f'CSSStyleSheet._setCssText.{name}', f'rejected iff expected > {thr}', ok, f'tests {[text(t) for t in tests]}')
-        got = set()
-        exp_ret = 0
-        for x in ast.walk(f):
-            if isinstance(x, ast.Return):
-                if isinstance(x.value, ast.Constant):
-                    got.add(x.value.value)
-                elif text(x.value) == 'expected':
-                    exp_ret += 1
-                else:
-                    got.add(text(x.value))
-        chk.ob(rid, SHEET, f'CSSStyleSheet._setCssText.{name}', f'returns level {sorted(rets)}', got == rets, f'returns {sorted(map(str, got))}')
-        if thr is not None:
-            chk.ob(rid, SHEET, f'CSSStyleSheet._setCssText.{name}', 'a misplaced rule leaves the level unchanged', exp_ret == 1, f'{exp_ret} `return expected`')
-    for name in FREE_CBS:
-        f = m.get(f'CSSStyleSheet._setCssText.{name}')
-        rs = [text(x.value) for x in ast.walk(f) if isinstance(x, ast.Return)]
-        chk.ob(rid, SHEET, f'CSSStyleSheet._setCssText.{name}', 'returns max(1, expected or 0)', rs == ['max(1, expected or 0)'], f'returns {rs}', shape=True)
-    # the dispatch table maps token kinds to the right callbacks, start level 0
     fn = m.get('CSSStyleSheet._setCssText')
-    calls = [c for c in ast.walk(fn) if isinstance(c, ast.Call) and call_name(c) == 'self._parse' and m.enclosing_def(c) is fn]
-    if len(calls) != 1:
-        raise AnalysisError('CSSStyleSheet._setCssText: _parse call not found')
-    c = calls[0]
-    chk.ob(rid, SHEET, 'CSSStyleSheet._setCssText', 'parsing starts at level 0', const(c.args[0]) == 0, text(c.args[0]))
-    want = {'CHARSET_SYM': 'charsetrule', 'IMPORT_SYM': 'importrule', 'NAMESPACE_SYM': 'namespacerule', 'VARIABLES_SYM': 'variablesrule', 'FONT_FACE_SYM': 'fontfacerule', 'PAGE_SYM': 'pagerule', 'MEDIA_SYM': 'mediarule', 'ATKEYWORD': 'unknownrule', 'S': 'S', 'COMMENT': 'COMMENT'}
-    d = c.args[3]
-    got = {k.value: text(v) for k, v in zip(d.keys, d.values)}
-    for k, v in want.items():
-        chk.ob(rid, SHEET, 'CSSStyleSheet._setCssText', f'{k} -> {v}', got.get(k) == v, f'-> {got.get(k)}')
+    inserted = []
+    logged = []
+    results = []
+
+    def mkrule(kind):
+        class R(Obj):
+            margins = ('@top-left', '@bottom-center')
+
+            def __init__(self, *a, **k):
+                Obj.__init__(self, kind=kind, wellformed=True, prefix='p', namespaceURI='u', NAMESPACE_RULE=10, cssText=None)
+        return R
+
+    css = Record(**{n: mkrule(n) for n in ('CSSComment', 'CSSCharsetRule', 'CSSImportRule', 'CSSNamespaceRule', 'CSSVariablesRule', 'CSSFontFaceRule', 'CSSMediaRule', 'CSSPageRule', 'MarginRule', 'CSSUnknownRule', 'CSSStyleRule')},
+                 CSSRuleList=lambda *a: [])
+    SPEC = {  # token type -> (highest level at which the statement is accepted, level after acceptance)
+        'CHARSET_SYM': (0, 1), 'IMPORT_SYM': (1, 1), 'NAMESPACE_SYM': (2, 2), 'VARIABLES_SYM': (2, 2),
+        'FONT_FACE_SYM': (3, 3), 'PAGE_SYM': (3, 3), 'MEDIA_SYM': (3, 3), 'IDENT': (3, 3),
+    }
+    NEUTRAL = {'S': None, 'CDO': None, 'CDC': None, 'COMMENT': 'CSSComment', 'ATKEYWORD': None}
+
+    def driver(expected, seq, tokenizer, productions, default=None, **kw):
+        results.append(('start', expected))
+        table = dict(productions)
+        cases = [(t, t) for t in list(SPEC) + ['S', 'CDO', 'CDC', 'COMMENT']] + [('ATKEYWORD', '@foo'), ('ATKEYWORD', '@TOP-LEFT')]
+        for ttype, val in cases:
+            cb = table.get(ttype, default)
+            if cb is None:
+                results.append((ttype, val, None, 'no callback'))
+                continue
+            for level in (0, 1, 2, 3):
+                del inserted[:]
+                new = cb(level, seq, (ttype, val, 1, 1), tokenizer)
+                results.append((ttype, val, level, new, [r.kind for r in inserted]))
+        return True, 3
+
+    me = Obj(_checkReadonly=lambda: None, _splitNamespacesOff=lambda t: (t, {}), _tokenize2=lambda t: 'TOKENIZER', _cssRules=[], _namespaces={}, namespaces={},
+             _tokenvalue=lambda tok, normalize=False: tok[1].lower() if normalize else tok[1], _tokensupto2=lambda *a, **k: ['tokens'],
+             insertRule=lambda r, *a, **k: inserted.append(r), _updateVariables=lambda: None, _cleanNamespaces=lambda: None,
+             _log=Record(error=lambda *a, **k: logged.append('error'), warn=lambda *a, **k: None, info=lambda *a, **k: None), _variables=None)
+    intr = {'cssutils': Record(css=css), 'xml': Record(dom=Record(HierarchyRequestErr='HierarchyRequestErr')), 'self._parse': driver, 'CSSVariablesDeclaration': lambda *a, **k: 'vars',
+            '_Namespaces': lambda *a, **k: {}, 'self._log.error': me._log.error, 'self._log.warn': me._log.warn}
+    res = Evaluator(fn, intrinsics=intr, module=m, cls='CSSStyleSheet').run(self=me, cssText='text')
+    if isinstance(res, Raised):
+        raise AnalysisError(f'CSSStyleSheet._setCssText: evaluation ends in {res!r}')
+    if not results or results[0] != ('start', 0):
+        chk.ob(rid, SHEET, 'CSSStyleSheet._setCssText', 'parsing starts at level 0', False, f'{results[:1]}')
+    else:
+        chk.ob(rid, SHEET, 'CSSStyleSheet._setCssText', 'parsing starts at level 0', True)
+    n = 0
+    for r in results[1:]:
+        ttype, val, level, new = r[0], r[1], r[2], r[3]
+        if level is None:
+            chk.ob(rid, SHEET, 'CSSStyleSheet._setCssText', f'{ttype} has a callback', False, 'statements of this kind fall to the unexpected-token error')
+            continue
+        kinds = r[4]
+        n += 1
+        label = f"{ttype}{'' if val == ttype else ' ' + val} at level {level}"
+        if ttype in SPEC:
+            upto, rank = SPEC[ttype]
+            if level <= upto:
+                ok = bool(kinds) and new == rank
+                why = f'accepted={bool(kinds)}, level becomes {new!r}; prescribed: accepted, level {rank}'
+            else:
+                ok = not kinds and new == level
+                why = f'accepted={bool(kinds)}, level becomes {new!r}; prescribed: rejected, level stays {level} (only the misplaced statement is dropped)'
+        else:
+            want = max(1, level)
+            ok = new == want and (NEUTRAL[ttype] is None or kinds == [NEUTRAL[ttype]])
+            why = f'level becomes {new!r}, inserted {kinds}; prescribed: level {want} - a comment, white space, unknown or misplaced at-rule must not move the sheet into another section'
+        if not ok or (level == 0 and val == ttype):
+            chk.ob(rid, SHEET, 'CSSStyleSheet._setCssText', label + ': ' + ('accepted' if ttype in SPEC and level <= SPEC[ttype][0] else 'rejected' if ttype in SPEC else 'level-neutral'), ok, why)
+    if n < 50:
+        raise AnalysisError(f'only {n} callback/level cases evaluated')
+    chk.extra['parse_level_cases'] = n
 
 
 # ---------------------------------------------------------------------------
